@@ -292,3 +292,25 @@ func CopyResult(m map[string]interface{}) map[string]interface{} {
 	}
 	return c
 }
+
+// ---- helpers for sequential (program/input) enumerations ----
+
+// RunRule executes exactly the rule `name` of the compiled set `src` on a fresh engine with the
+// given injected data and reports what a caller observes: the rule's entry in the result map (if
+// any), the error, and a panic that escaped the execute call.
+func RunRule(src *builder.RuleBuilder, name string, inject map[string]interface{}) (val interface{}, has bool, err error, panicked interface{}) {
+	rb := Fresh(src, nil, inject)
+	g := engine.NewGengine()
+	err, panicked = CallGuarded(func() error { return g.ExecuteSelectedRules(rb, []string{name}) })
+	if panicked != nil {
+		return nil, false, err, panicked
+	}
+	m, _ := g.GetRulesResultMap()
+	val, has = m[name]
+	return
+}
+
+// RuleText wraps a body into a rule.
+func RuleText(name string, body string) string {
+	return fmt.Sprintf("rule \"%s\" begin\n%s\nend\n", name, body)
+}
